@@ -49,17 +49,21 @@ func Harness_C17_elevators() {
 		}
 		ms = append(ms, hElev{stations[s], vr.OneOf(vr.T("alert", i, ".dir"), "", "N", "S"), elevs[e]})
 	}
-	// distinct alert ids (a feed does not repeat an entity id)
+	// the entity id may carry text before the elevator pattern (the last alert tries it): two distinct
+	// entity ids can then name the same platform and elevator, i.e. one group under every policy
+	prefix := make([]string, A)
+	prefix[A-1] = vr.OneOf("alert.last.prefix", "", "x-")
+	// distinct entity ids (a feed does not repeat an entity id)
 	for i := range ms {
 		for j := i + 1; j < len(ms); j++ {
-			vr.Assume(ms[i].id() != ms[j].id())
+			vr.Assume(prefix[i]+ms[i].id() != prefix[j]+ms[j].id())
 		}
 	}
 	build := func(order []int) *gtfsrt.FeedMessage {
 		ver := "2.0"
 		msg := &gtfsrt.FeedMessage{Header: &gtfsrt.FeedHeader{GtfsRealtimeVersion: &ver}}
 		for _, i := range order {
-			id := ms[i].id()
+			id := prefix[i] + ms[i].id()
 			junk := "zzz"
 			msg.Entity = append(msg.Entity, &gtfsrt.FeedEntity{Id: &id, Alert: &gtfsrt.Alert{InformedEntity: []*gtfsrt.EntitySelector{{StopId: &junk}}}})
 		}
